@@ -16,6 +16,19 @@
 #include <string>
 #include <vector>
 
+#ifdef VH_COVERAGE
+extern "C" void __gcov_dump(void);
+#endif
+#include <unistd.h>
+// _exit that keeps the coverage counters of a forked child (binding-coverage builds only)
+[[noreturn]] inline void vh_exit(int rc)
+{
+#ifdef VH_COVERAGE
+    __gcov_dump();
+#endif
+    ::_exit(rc);
+}
+
 namespace vh {
 using json = nlohmann::json;
 
